@@ -333,7 +333,7 @@ pub fn check_program(prog: &Program, seed: u64, thorough: bool, rep: &mut Report
 pub fn run(p: &Params, rep: &mut Report) {
     let stride = 1;
     for_tiny_programs(p, rep, stride, p.size(150, 3000), |prog, seed, rep| check_program(prog, seed, p.thorough, rep));
-    let n = p.size(25, 300);
+    let n = p.size(100, 1000);
     for_programs(p, rep, 3, n, &STD_WEIGHTS, (15, 40), |prog, seed, rep| check_program(prog, seed, p.thorough, rep));
 }
 
